@@ -226,6 +226,8 @@ def cex_props(res):
         return ['C14']
     if d == 'derive_hidden':
         return ['C16', 'C11']
+    if d == 'derive_parse':
+        return ['C16']
     return []
 
 
